@@ -1571,7 +1571,7 @@ class FnTr:
                 return Val(chars_literal(e.value), 'Chars')          # a str is the list of its characters
             if isinstance(e.value, float) and e.value == int(e.value) and 'float_as_int' in self.u.hooks:
                 return Val(f'({int(e.value)} : Int)', 'Int')      # 1.0, 2.0 next to the numeric class: the same number
-            if isinstance(e.value, str) and 'str_const' in self.u.hooks and e.value.isascii() and e.value.isprintable() \
+            if isinstance(e.value, str) and 'str_lit' in self.u.hooks and e.value.isascii() and e.value.isprintable() \
                     and '"' not in e.value and '\\' not in e.value:
                 return Val(f'"{e.value}"', 'Str')
             raise Unsupported(f'constant {e.value!r}')
